@@ -243,3 +243,77 @@ impl Check for Mutants {
         r.count("nontrivial_mutants", nontrivial)
     }
 }
+
+
+/* ------------------------------------ term holes ------------------------------------ */
+
+/// C01: "meeting an unsolved hole" is one of the undefined machine states. Programs with one `_`
+/// in each term position, at a known type: whatever `check` accepts must not go wrong.
+pub struct Holes {
+    cases: Vec<(&'static str, String)>,
+}
+impl Holes {
+    pub fn new() -> Self {
+        let pre = "let Ret = @(intrinsic(ret)) in let Thk = @(intrinsic(thk)) in let Unit = @(intrinsic(unit)) in let Int64 = @(intrinsic(i64)) in let B = data | +T : Unit | +F : Unit end in ";
+        let forms: Vec<(&'static str, &'static str)> = vec![
+            ("let-bound value at an annotation", "let x : Int64 = _ in ret x"),
+            ("let-bound value, unused", "let x : Int64 = _ in ret 1"),
+            ("returned value", "let f : Thk (Ret Int64) = { ret _ } in ! f"),
+            ("tuple component", "let p : Int64 * Int64 = (1, _) in let (a, b) = p in ret a"),
+            ("tuple component, projected", "let p : Int64 * Int64 = (1, _) in let (a, b) = p in ret b"),
+            ("constructor payload", "let b : B = +T(_) in match b | +T() => ret 1 | +F() => ret 2 end"),
+            ("function argument", "let f : Thk (Int64 -> Ret Int64) = { fn x => ret x } in ! f _"),
+            ("function argument, ignored", "let f : Thk (Int64 -> Ret Int64) = { fn x => ret 1 } in ! f _"),
+            ("thunk value", "let f : Thk (Ret Int64) = _ in ! f"),
+            ("scrutinee", "let b : B = _ in match b | +T() => ret 1 | +F() => ret 2 end"),
+            ("computation bound by do", "do (x : Int64) <- _; ret x"),
+            ("computation in a thunk body", "let f : Thk (Ret Int64) = { _ } in ! f"),
+            ("computation in a thunk body, never forced", "let f : Thk (Ret Int64) = { _ } in ret 1"),
+            ("function body", "let f : Thk (Int64 -> Ret Int64) = { fn x => _ } in ! f 1"),
+            ("match arm", "let b : B = +T() in match b | +T() => _ | +F() => ret 2 end"),
+            ("match arm not taken", "let b : B = +T() in match b | +T() => ret 1 | +F() => _ end"),
+            ("continuation of do", "do (x : Int64) <- ret 1; _"),
+            ("whole program at an ascription", "(_ : Ret Int64)"),
+        ];
+        Holes { cases: forms.into_iter().map(|(n, f)| (n, format!("{pre}{f}"))).collect() }
+    }
+}
+impl Check for Holes {
+    fn property(&self) -> &'static str {
+        "C01"
+    }
+    fn name(&self) -> String {
+        "c01-holes".into()
+    }
+    fn len(&self) -> usize {
+        self.cases.len()
+    }
+    fn describe(&self, i: usize) -> String {
+        format!("{}: {}", self.cases[i].0, self.cases[i].1)
+    }
+    fn rule(&self) -> String {
+        format!("{} closed programs with one term hole `_` in each value and computation position (bound, returned, component, payload, argument, thunk, scrutinee, do-bound, thunk body, function body, match arm, continuation), each at a known type, in variants where the hole is and is not reached; oracle: if the session accepts the program, stepping it never unwinds (an unsolved hole is one of the undefined machine states of C01); non-trivial = accepted programs", self.cases.len())
+    }
+    fn run(&mut self, i: usize) -> CaseResult {
+        let scratch = Scratch::new("c01holes");
+        let (name, text) = &self.cases[i];
+        let path = scratch.write("main.zydeco", text);
+        let mut r = CaseResult::ok("form").key(i as u64);
+        match guarded(|| {
+            let s = Subject::analyze(&path);
+            let v = s.verdict();
+            let run = if v.accepted() { Some(s.run(b"", &[], 2000)) } else { None };
+            (v, run)
+        }) {
+            | Err(_) => r = r.count("front_end_panics_counted_by_C10", 1),
+            | Ok((v, None)) => r = r.count(&format!("rejected_{}", v.tag()), 1),
+            | Ok((_, Some(run))) => {
+                r = r.nontrivial(true).count("accepted", 1);
+                if let RunEnd::Panic(p) = &run.end {
+                    r = r.violation(format!("accepted program with a term hole goes wrong: {}", crate::front::short_msg(&p.msg)), format!("{name}: {:?}\n{}", run.end, text));
+                }
+            }
+        }
+        r
+    }
+}
